@@ -321,6 +321,9 @@ def _strict_eq(a, b):
         return len(a) == len(b) and all(_strict_eq(x, y) for x, y in zip(a, b))
     if isinstance(a, float) and a != a:
         return b != b
+    import decimal
+    if isinstance(a, decimal.Decimal) and a.is_nan():       # Decimal('NaN') != Decimal('NaN')
+        return b.is_nan() and str(a) == str(b)
     if isinstance(a, (set, frozenset)):
         return a == b and sorted(map(repr, a)) == sorted(map(repr, b))
     if hasattr(a, "__dataclass_fields__"):
@@ -510,6 +513,12 @@ def source_shapes(tl, P, ann, cls, w):
         foreign = dataclasses.make_dataclass("Foreign", [(k, typing.Any) for k in w] + [("zz_extra", typing.Any)])
         outs["foreign-instance"] = _outcome(lambda: tl.unmarshal(ann, foreign(**w, zz_extra=0)))
         outs["mapping+extra"] = _outcome(lambda: tl.unmarshal(ann, {**w, "zz_extra": 0}))
+    # an instance of the class ITSELF that still holds the wire data (constructors do not validate): its fields are converted
+    # like any other source's
+    if isinstance(cls, type) and not issubclass(cls, dict) and set(w) <= set(typing.get_type_hints(cls)):
+        own = _outcome(lambda: cls(**w))
+        if own[0] == "ok" and type(own[1]) is cls:
+            outs["own-class-instance-holding-wire-data"] = _outcome(lambda: tl.unmarshal(ann, own[1]))
     ref = outs["mapping"]
     bad = {k: _brief(o, P) for k, o in outs.items() if not _same_outcome(o, ref)}
     return len(outs), ({"mapping": _brief(ref, P), **bad} if bad else None)
